@@ -115,7 +115,7 @@ template <class T> static void all (uint64_t seed, int count)
     int phase = (int) (seed % (uint64_t) stride);
     for (int e = emin + phase; e <= emax; e += stride)
     {
-        if (sizeof (T) == 4 && ((e - emin) % 16) >= count && count < 16) continue;
+        if (sizeof (T) == 4 && ((e - emin + (int) (seed % 16)) % 16) >= count && count < 16) continue;      // the 16 shards share the exponents between them
         patterns<T, Vec2<T>> (g, 2, e);
         patterns<T, Vec3<T>> (g, 3, e);
         patterns<T, Vec4<T>> (g, 4, e);
